@@ -168,9 +168,12 @@ var rawInputs = []string{
 // valid one, a vector of another kind, or raw bytes.  class names the recipe.
 func genVector(r *rng, k int, big bool) (vec string, class string, sh vecShape) {
 	switch c := r.intn(100); {
-	case c < 45:
+	case c < 38:
 		v, s := genValidVector(r, k)
 		return v, "valid", s
+	case c < 45:
+		v, cl := genAbortVector(r, k)
+		return v, cl, vecShape{}
 	case c < 55:
 		// a valid vector of another kind/level/version
 		ok := r.intn(NKinds)
@@ -330,6 +333,61 @@ func genVector(r *rng, k int, big bool) (vec string, class string, sh vecShape) 
 		class = "partial-group"
 	}
 	return strings.Join(toks, "/"), class, vecShape{}
+}
+
+// genAbortVector builds an input whose decode fails after part of the receiver
+// has been filled in: a bad value in an optional metric, a duplicate or an
+// unsupported metric at the end, a missing base metric, a misordered v2 vector.
+func genAbortVector(r *rng, k int) (string, string) {
+	v, _ := genValidVector(r, k)
+	toks := strings.Split(v, "/")
+	lvl := kindLevel(k)
+	var opt []metricDef
+	if kindIsV2(k) {
+		opt = append(opt, v2TempDefs...)
+		if lvl >= 2 {
+			opt = append(opt, v2EnvDefs...)
+		}
+	} else {
+		opt = append(opt, v3TempDefs...)
+		if lvl >= 2 {
+			opt = append(opt, v3EnvDefs...)
+		}
+	}
+	switch c := r.intn(6); {
+	case c <= 1 && lvl >= 1:
+		d := pick(r, opt)
+		bad := pick(r, []string{"Z", "x", "0", "XX", "?"})
+		for i, t := range toks {
+			if strings.HasPrefix(t, d.name+":") {
+				toks[i] = d.name + ":" + bad
+				return strings.Join(toks, "/"), "abort-bad-optional"
+			}
+		}
+		return strings.Join(append(toks, d.name+":"+bad), "/"), "abort-bad-optional"
+	case c == 2:
+		i := len(toks) - 1
+		if i > 0 {
+			i = 1 + r.intn(len(toks)-1)
+		}
+		return strings.Join(append(toks, toks[i]), "/"), "abort-dup-at-end"
+	case c == 3:
+		return strings.Join(append(toks, "ZZ:1"), "/"), "abort-unsupported-at-end"
+	case c == 4:
+		// drop one base metric, keep everything else
+		i := r.intn(len(toks))
+		if !kindIsV2(k) && i == 0 {
+			i = 1
+		}
+		return strings.Join(append(toks[:i:i], toks[i+1:]...), "/"), "abort-missing-metric"
+	default:
+		if len(toks) > 2 {
+			i := len(toks) - 1
+			j := 1 + r.intn(i-1)
+			toks[i], toks[j] = toks[j], toks[i]
+		}
+		return strings.Join(toks, "/"), "abort-reordered"
+	}
 }
 
 func genBig(r *rng) string {
